@@ -1179,3 +1179,91 @@ def r5_7_sort_key_fields(ck, P):
                 ck.violation(R, f.name, 'comparison at line %s (%s)' % (x.loc().split(':')[-1], _w(u)), 'the sort compares %s of one box with %s of the other: this scan orders rectangles by a different key than the other scans of the same partition step, so the array can come out unsorted and the band merge that follows drops or duplicates area' % (a.split('.')[-1], b.split('.')[-1]), x.loc())
             else:
                 ck.ok(R, where)
+
+
+_SWAP = {'slt': 'sgt', 'sgt': 'slt', 'sle': 'sge', 'sge': 'sle', 'eq': 'eq', 'ne': 'ne', 'ult': 'ugt', 'ugt': 'ult', 'ule': 'uge', 'uge': 'ule'}
+
+
+def r_equality_sides(ck, P, rid):
+    """contradiction rule (Engler): two tests of the same pair of coordinates that are evaluated independently of each other (neither
+    is only reached after the other) put the equal case on the same side.  `a > b` here and `a < b` there leaves a == b 'not above'
+    for one and 'not below' for the other — for half-open boxes exactly one of them is wrong."""
+    R = ck.rule(rid, 'within one region function, two independent comparisons of the same pair of coordinates (same variable / same box field; neither comparison is control-dependent on the other) never are strict in opposite directions: the boundary case a == b is classified the same way by both (half-open boxes: a >= b here means a < b there)', floor=90)
+    for u in units(P):
+        for fn, f in sorted(u.functions.items()):
+            G = defaultdict(list)
+            def key(o):
+                x = f.v(o)
+                while x is not None and x.op in ('sext', 'zext', 'trunc') and not x.dv:
+                    o = x.a[0]; x = f.v(o)
+                if x is None:
+                    return ('arg', o[1]) if o[0] == 'a' else None
+                if x.dv:
+                    return ('var', x.dv)               # the value of a source variable (also when it was just loaded from a box)
+                if x.op == 'load':
+                    pth = f.path(x.a[0]); r_ = f.root(pth)
+                    if r_[0] in ('phi', 'select'):
+                        nm_ = f.by_id[r_[1]].dv
+                        if not nm_:
+                            return None
+                        return ('ld', nm_ + '->' + '/'.join(str(t) for t in pth[1]))
+                    return ('ld', f.pstr(pth))
+                return None
+            def is_minmax(x):
+                # MIN / MAX: the comparison only chooses which of its own two operands is used; the equal case has no side
+                us = f.users(x)
+                if not us:
+                    return False
+                for t in us:
+                    if t.op == 'select' and {tuple(t.a[1]), tuple(t.a[2])} == {tuple(x.a[0]), tuple(x.a[1])}:
+                        continue
+                    if t.op == 'br' and len(t.d.get('succ', [])) == 2:
+                        ends = set()
+                        for s_ in t.d['succ']:
+                            blk = f.blocks[s_]
+                            if all(y.op == 'phi' for y in blk.insts[:-1]) and any(y.op == 'phi' for y in blk.insts):
+                                ends.add(s_)
+                            elif len(blk.insts) == 1 and blk.term.op == 'br' and len(blk.succ) == 1:
+                                ends.add(blk.succ[0])
+                            elif all(y.op in ('sext', 'zext', 'trunc', 'load', 'getelementptr', 'br') for y in blk.insts) and len(blk.succ) == 1:
+                                ends.add(blk.succ[0])
+                            else:
+                                return False
+                        if len(ends) != 1:
+                            return False
+                        want = {key(x.a[0]), key(x.a[1])}
+                        phis = [y for y in f.blocks[next(iter(ends))].insts if y.op == 'phi']
+                        if None in want or not any({key(a_) for a_ in y.a} == want for y in phis):
+                            return False
+                        continue
+                    return False
+                return True
+            for x in f.insts():
+                if x.op != 'icmp' or x.d['p'] not in _SWAP or is_minmax(x):
+                    continue
+                a, b = key(x.a[0]), key(x.a[1])
+                if a is None or b is None or a == b:
+                    continue
+                p = x.d['p']
+                if repr(a) > repr(b):
+                    a, b = b, a; p = _SWAP[p]
+                G[(a, b)].append((p, x))
+            for (a, b), v in sorted(G.items(), key=lambda kv: repr(kv[0])):
+                if len(v) < 2:
+                    continue
+                ck.saw(f)
+                bad = None
+                def dep(x, y):
+                    # y is only evaluated because of how x (or a test in x's short-circuit chain) came out
+                    return x.bb.id == y.bb.id or any(t.bb.id == x.bb.id for t, s_ in f.control_conditions(y.bb.id))
+                for p, x in v:
+                    for q, y in v:
+                        if p in ('sgt', 'ugt') and q in ('slt', 'ult') and not dep(x, y) and not dep(y, x):
+                            bad = (x, y)
+                nm = lambda k: k[1] if k[0] != 'arg' else (f.params[k[1]][0] or 'parameter %d' % k[1])
+                where = '%s/%s: %s vs %s (%d comparisons)' % (u.name, fn, nm(a), nm(b), len(v))
+                if bad:
+                    x, y = bad
+                    ck.violation(R, fn, '%s vs %s (%s)' % (nm(a).split('/')[-1], nm(b).split('/')[-1], _w(u)), '%s is tested strictly greater than %s at %s and strictly less at %s, and neither test is control-dependent on the other: when the two are equal the first treats the span as not yet finished and the second as already finished, so a boundary that falls exactly on a box edge is handled inconsistently (empty rectangles emitted / wrong overlap class)' % (nm(a).split('/')[-1], nm(b).split('/')[-1], x.loc(), y.loc()), x.loc())
+                else:
+                    ck.ok(R, where)
